@@ -424,6 +424,8 @@ func init() {
 		Not: "Per-NLRI worst-case size arithmetic, boundary sizes and the equivalence of the packed messages with the change list over all inputs are not decided.",
 		Run: func(c *Ctx) {
 			c.ruleRatchets("C11")
+			c.ruleCheckedIsEmitted("E3.checked-is-emitted")
+			c.rulePackSerializeSameOptions("E6.pack-serialize-same-options", 2)
 			c.ruleCageReuse()
 			c.ruleNexthopKey()
 			c.ruleSizeBudget()
